@@ -1035,6 +1035,25 @@ class Planner:
                 self.flat_form(M)
             else:
                 self.form(M, r.choice([0, 1, 1, 2, 2]), self.cfg.get("depth") or r.choice([2, 3, 3]))
+        self.baseforms = []
+        if r.random() < self.cfg.get("formsum_p", 0.15):
+            # base forms that are sums of a form and a cofunction
+            M = self.meshes[0]
+            dual = self.new()
+            if self.emit(["meth", dual, self.ref(M["V"]), "dual", []], kind="space"):
+                c1 = self.call("ufl.Cofunction", self.ref(dual), kind="baseform")
+                c2 = self.call("ufl.Cofunction", self.ref(dual), kind="baseform")
+                L = None
+                for f, rank, mi in self.forms:
+                    if rank == 1 and mi == 0:
+                        L = f
+                        break
+                if L is None:
+                    L = self.form(M, 1, 2, nint=1)
+                if L is not None and c1 is not None:
+                    S = self.call("operator.add", self.ref(L), self.ref(c1), kind="baseform")
+                    if S is not None:
+                        self.baseforms = [x for x in (S, c1, c2) if x is not None]
         setup_len = len(self.ops)
         nsteps = self.cfg.get("n_steps") or r.randint(3, 14)
         abort_p = self.cfg.get("abort_p", 0.5)
@@ -1044,7 +1063,32 @@ class Planner:
                 break
             kf = r.random() < abort_p
             start = len(self.ops)
-            if self.forms and (r.random() < 0.6 or not self.exprs):
+            if self.baseforms and r.random() < 0.3:
+                S = r.choice(self.baseforms)
+                other = r.choice(self.baseforms)
+                w = r.choice(["add", "sub", "radd", "neg", "scale", "addself", "hash", "eq"])
+                if w == "add":
+                    out = self.call("operator.add", self.ref(S), self.ref(other), keep_failed=kf, kind="baseform")
+                elif w == "sub":
+                    out = self.call("operator.sub", self.ref(S), self.ref(other), keep_failed=kf, kind="baseform")
+                elif w == "radd":
+                    out = self.call("operator.add", self.ref(other), self.ref(S), keep_failed=kf, kind="baseform")
+                elif w == "neg":
+                    out = self.call("operator.neg", self.ref(S), keep_failed=kf, kind="baseform")
+                elif w == "scale":
+                    out = self.call("operator.mul", r.choice([2, 0.5, -1]), self.ref(S), keep_failed=kf, kind="baseform")
+                elif w == "addself":
+                    out = self.call("operator.add", self.ref(S), self.ref(S), keep_failed=kf, kind="baseform")
+                elif w == "hash":
+                    self.emit(["obs", None, "hash", S])
+                    out = None
+                else:
+                    self.emit(["cmp", None, S, other])
+                    out = None
+                inputs = [S, other]
+                if out is not None and out in self.node.slots and isinstance(self.obj(out), BaseForm) and not isinstance(self.obj(out), Form):
+                    self.baseforms.append(out)
+            elif self.forms and (r.random() < 0.6 or not self.exprs):
                 f, rank, mi = r.choice(self.forms)
                 out = self.form_step(f, rank, self.meshes[mi], kf)
                 inputs = [f]
@@ -1339,6 +1383,39 @@ class Planner:
             t = self.call("ufl.classes.Zero", self.lit_tuple(sh))
             if t is not None:
                 lits.append(t)
+        # zeros that carry free indices, products whose factors differ only in the free
+        # index / label they carry
+        for M in self.meshes[:1]:
+            vec = [t for t in M["coefs"] + [M["x"]] if len(self.shape(t)) == 1]
+            if vec:
+                v = vec[0]
+                i = self.call("ufl.Index", kind="index")
+                j = self.call("ufl.Index", kind="index")
+                vi = self.call("operator.getitem", self.ref(v), self.ref(i))
+                vj = self.call("operator.getitem", self.ref(v), self.ref(j))
+                for q in (vi, vj):
+                    if q is not None:
+                        z = self.call("operator.mul", 0, self.ref(q))
+                        if z is not None:
+                            lits.append(z)
+                if vi is not None and vj is not None:
+                    for t in (self.call("operator.mul", self.ref(vi), self.ref(vj)), self.call("operator.mul", self.ref(vj), self.ref(vi))):
+                        if t is not None:
+                            lits.append(t)
+                            t2 = self.call("ufl.as_tensor", self.ref(t), ["t", self.ref(i), self.ref(j)])
+                            if t2 is not None:
+                                lits.append(t2)
+                    zv = self.call("ufl.as_vector", [self.ref(self.call("operator.mul", 0, self.ref(vj))), self.ref(vj)]) if vj is not None else None
+                    if zv is not None:
+                        lits.append(zv)
+            sc = [t for t in M["coefs"] if self.shape(t) == ()]
+            if sc:
+                a = self.call("ufl.variable", self.ref(sc[0]))
+                b = self.call("ufl.variable", self.ref(sc[0]))
+                if a is not None and b is not None:
+                    for t in (self.call("operator.mul", self.ref(a), self.ref(b)), self.call("operator.mul", self.ref(b), self.ref(a))):
+                        if t is not None:
+                            lits.append(t)
         for d in (2, 3):
             for f in ("ufl.Identity", "ufl.PermutationSymbol"):
                 t = self.call(f, d)
